@@ -579,10 +579,10 @@ class Context:
         # (only for purely real problems: z3 does not honour the timeout reliably on
         # mixed integer/real non-linear queries)
         if all(vsort(self.inputs[nm]) == 'R' for nm in self.input_order):
-            for extra in (self._nice(nonzero=True), self._nice()):
-                v, m = self.full_model(And.make(extra), 2000)
-                if v == 'sat':
-                    return v, m
+            # one attempt only: z3 does not always honour the timeout inside nlsat
+            v, m = self.full_model(And.make(self._nice(nonzero=True)), 2000)
+            if v == 'sat':
+                return v, m
         return self.full_model(TRUE, self.t_claim)
 
     def _nice(self, nonzero=False, span=1024):
